@@ -23,7 +23,13 @@ def classOfName (n : String) : TK :=
   else if ["TokenTypeString", "TokenTypeSingleQuotedString", "TokenTypeDollarQuotedString"].contains n then .str
   else if n == "TokenTypeTrue" || n == "TokenTypeFalse" then .bool
   else if n == "TokenTypeNull" then .null
-  else if ["TokenTypeEOF", "TokenTypeSemicolon", "TokenTypeComma"].contains n then .stop
+  else if n == "TokenTypeIs" then .is
+  else if n == "TokenTypeBetween" then .between
+  else if n == "TokenTypeLike" then .like
+  else if n == "TokenTypeILike" then .ilike
+  else if n == "TokenTypeIn" then .in_
+  else if n == "TokenTypeComma" then .comma
+  else if ["TokenTypeEOF", "TokenTypeSemicolon"].contains n then .stop
   else if ["TokenTypeDoubleColon", "TokenTypeArrow", "TokenTypeLongArrow", "TokenTypeHashArrow", "TokenTypeHashLongArrow",
            "TokenTypeAtArrow", "TokenTypeArrowAt", "TokenTypeHashMinus", "TokenTypeQuestion", "TokenTypeQuestionPipe",
            "TokenTypeQuestionAnd", "TokenTypeLBracket", "TokenTypePeriod", "TokenTypeDot"].contains n then .cont
